@@ -908,14 +908,26 @@ fn do_scheduled_action<M: AsRef<[Machine]>>(
             // should we update client/server blocking?
             if is_client {
                 if replace || block > client.blocking_until.unwrap_or(a.time) {
+                    // extending (not replacing) ongoing blocking keeps it
+                    // fail-closed unless every contributing action allows bypass
+                    client.blocking_bypassable = if replace || client.blocking_until.is_none() {
+                        bypass
+                    } else {
+                        client.blocking_bypassable && bypass
+                    };
                     client.blocking_until = Some(block);
-                    client.blocking_bypassable = bypass;
                 }
                 event_bypass = client.blocking_bypassable;
             } else {
                 if replace || block > server.blocking_until.unwrap_or(a.time) {
+                    // extending (not replacing) ongoing blocking keeps it
+                    // fail-closed unless every contributing action allows bypass
+                    server.blocking_bypassable = if replace || server.blocking_until.is_none() {
+                        bypass
+                    } else {
+                        server.blocking_bypassable && bypass
+                    };
                     server.blocking_until = Some(block);
-                    server.blocking_bypassable = bypass;
                 }
                 event_bypass = server.blocking_bypassable;
             }
